@@ -52,6 +52,8 @@ def run(run):
         run.undecided("C18.R3", None, None, "discarded-futures rule self-check failed", kind="selfcheck", construct="<futures selfcheck>")
     if _swallowing_helpers(run, f):
         return
+    if _falsy_position_tests(run, pipe_funcs):
+        return
     # procedure-like helpers of the manager (e.g. "upload one approved image") are spliced into publish
     f = inline_helpers(project, f, lambda owner, call: common.resolve_callee(project, owner, call))
     ev = sym.make_evaluator(project, PIPE, [])
@@ -147,6 +149,39 @@ def run(run):
     # ---- R5 constants
     _r5(run)
     _r6(run)
+
+
+def _falsy_position_tests(run, funcs):
+    """`pos = find(names, 'index.wtml')` with find() = "position, or None when absent", followed by a test of the *truth value*
+    of pos (`if pos:`, `if not pos:`, `pos and ..`): position 0 is falsy, so a list that starts with the wanted name is treated as
+    one that does not contain it.  In the upload ordering this means index.wtml stays first when the directory lists it first."""
+    project = run.project
+    found = False
+    for g in funcs:
+        for a in own_nodes(g.node):
+            if not (isinstance(a, ast.Assign) and len(a.targets) == 1 and isinstance(a.targets[0], ast.Name) and isinstance(a.value, ast.Call)):
+                continue
+            h = common.resolve_callee(project, g, a.value)
+            if h is None or not _is_index_or_none(project, h):
+                continue
+            v = a.targets[0].id
+            for t in own_nodes(g.node):
+                test = t.test if isinstance(t, (ast.If, ast.While, ast.IfExp)) else None
+                if test is None:
+                    continue
+                parts = [test] + (list(test.values) if isinstance(test, ast.BoolOp) else [])
+                parts = [p_.operand if isinstance(p_, ast.UnaryOp) and isinstance(p_.op, ast.Not) else p_ for p_ in parts]
+                if any(isinstance(p_, ast.Name) and p_.id == v for p_ in parts):
+                    sentinel_here = any(isinstance(x, ast.Constant) and x.value == SENTINEL for x in ast.walk(g.node)) or \
+                        any(isinstance(d_, ast.Constant) and d_.value == SENTINEL for d_ in g.node.args.defaults + [x for x in g.node.args.kw_defaults if x is not None]) or \
+                        any(isinstance(x, ast.Name) and x.id.isupper() for x in ast.walk(g.node))
+                    run.note_func(g, h)
+                    run.violated("C18.R1", g, t, "%s tests the truth value of `%s`, the position returned by %s (None when absent): position 0 is falsy, so when the "
+                                 "directory listing starts with the looked-for name it is treated as absent%s" % (
+                                     g.short, v, h.short, " -- 'index.wtml' is then not moved to the end and is uploaded first" if sentinel_here else ""),
+                                 kind="position-truthiness")
+                    found = True
+    return found
 
 
 def _swallowing_helpers(run, publish):
